@@ -278,6 +278,7 @@ def table : List Entry := [
   ⟨"NormalGravity.V0", 4, ["1111", "1111", "1111"], false, []⟩,
   ⟨"OSGB.Forward", 4, ["1111", "1111"], false, []⟩,
   ⟨"OSGB.GridReference", 1, ["1", "1"], true, []⟩,
+  ⟨"OSGB.GridReference11", 1, ["1", "1"], true, []⟩,
   ⟨"OSGB.Reverse", 4, ["1111", "1111"], false, []⟩,
   ⟨"PS.ForwardN", 4, ["1101", "1110"], false, []⟩,
   ⟨"PS.ForwardS", 4, ["1101", "1110"], false, []⟩,
